@@ -3,7 +3,7 @@
 (* TLC does not evaluate them at start-up of the quick configuration).     *)
 EXTENDS MCMatcher
 
-TreesFull == E1 \cup BinOver(E1) \cup CallOver(E0, E1, 2)
+TreesFull == E1 \cup BinOver(E1) \cup CallOver(E0, E1, 2) \cup MinusQ
 
 \* family A: every pattern of depth <= 2 over the leaves (the design's exhaustive family)
 FamA == Good(Grow(A1))
@@ -17,6 +17,7 @@ FamL  == Good(CallL(ConsF \cup {PAny, PNil, Ref("x")} \cup A1r)
                \cup { Or2(c, s) : c \in CallL(ConsQ), s \in Leaf \cup { Bind("x", PAny), PBin(Ref("x"), Ref("y")) } }
                \cup { Not(c) : c \in CallL(ConsF) })
 
-FullPats  == SetToSeq(FamA \cup FamS \cup FamLq \cup FamL \cup FamD)
+FullPats  == SetToSeq(FamA \cup FamS \cup FamT \cup FamLq \cup FamL \cup FamD)
 FullTrees == SetToSeq(TreesFull)
+SpecFull == GenInit(FullPats, FullTrees) /\ [][MatchCall(FullPats, FullTrees)]_vars
 =============================================================================
